@@ -81,10 +81,10 @@ func (h Handler) handleTxCursor(
 		return server.Send(responsePair)
 	} else if cur.Op == gen.Op_GET {
 		err := tx.dbTx.Get(cur.K, func(data []byte) error {
-			if data != nil {
-				responsePair.V = data
-				responsePair.K = cur.K
-			}
+			// the callback runs only for a key that exists (a nil value is a value too);
+			// data is only valid inside the callback
+			responsePair.V = slices.Clone(data)
+			responsePair.K = cur.K
 			return nil
 		})
 		if err != nil && !errors.Is(err, db.ErrKeyNotFound) {
